@@ -955,7 +955,7 @@ func c10Run(t *testing.T, kind string, quick, thorough int) {
 	})
 }
 
-func TestVerif_C10_table(t *testing.T)    { c10Run(t, "table", 3, 3) }
+func TestVerif_C10_table(t *testing.T)    { c10Run(t, "table", 2, 3) }
 func TestVerif_C10_archive(t *testing.T)  { c10Run(t, "archive", 2, 3) }
 func TestVerif_C10_manifest(t *testing.T) { c10Run(t, "manifest", 3, 6) }
 func TestVerif_C10_journal(t *testing.T)  { c10Run(t, "journal", 2, 1) }
